@@ -219,6 +219,9 @@ func (l *Gpos1_2) encode() []byte {
 	}
 	coverageOffset := total
 	total += l.Cov.EncodeLen()
+	if coverageOffset > 0xFFFF {
+		panic("coverage offset overflow")
+	}
 
 	buf := make([]byte, 0, total)
 	buf = append(buf,
